@@ -876,9 +876,10 @@ def serGOut (tbl : List IRValue) : IRGOut → ValueInfoP
   | .dangling v => serValue v
 
 mutual
-/-- `serialize_attribute_into` / `serialize_reference_attribute_into` serde.py:2161-2265.
-Subgraphs are serialized without `model_ir_version`. -/
-def serAttr (scopes : Scopes) : IRAttr → Except Err AttrP
+/-- `serialize_attribute_into` / `serialize_reference_attribute_into` serde.py:2221-2330.
+Subgraphs are serialized with the model's IR version (the multi-device gate applies to their
+nodes as well). -/
+def serAttr (scopes : Scopes) (ver : Option Int) : IRAttr → Except Err AttrP
   | .ref n d r t => .ok (.ref n d r t)
   | .int n d i => .ok (.int n d i)
   | .float n d b => .ok (.float n d b)
@@ -889,27 +890,27 @@ def serAttr (scopes : Scopes) : IRAttr → Except Err AttrP
   | .tensor n d t => .ok (.tensor n d (serTensor t))
   | .tensors n d ts => .ok (.tensors n d (ts.map serTensor))
   | .graph n d g => do
-    let x ← serGraph scopes none g
+    let x ← serGraph scopes ver g
     .ok (.graph n d x)
   | .graphs n d gs => do
-    let xs ← serGraphs scopes gs
+    let xs ← serGraphs scopes ver gs
     .ok (.graphs n d xs)
   | .typeProto n d ty sh => .ok (.typeProto n d (serTypeAndShape ty sh))
   | .typeProtos n d tps => .ok (.typeProtos n d (serTypeAndShapes tps))
   | .undefined .. => .error "TypeError"
 
-def serGraphs (scopes : Scopes) : List IRGraph → Except Err (List GraphP)
+def serGraphs (scopes : Scopes) (ver : Option Int) : List IRGraph → Except Err (List GraphP)
   | [] => .ok []
   | g :: gs => do
-    let x ← serGraph scopes none g
-    let xs ← serGraphs scopes gs
+    let x ← serGraph scopes ver g
+    let xs ← serGraphs scopes ver gs
     .ok (x :: xs)
 
-def serAttrs (scopes : Scopes) : List IRAttr → Except Err (List AttrP)
+def serAttrs (scopes : Scopes) (ver : Option Int) : List IRAttr → Except Err (List AttrP)
   | [] => .ok []
   | a :: as => do
-    let x ← serAttr scopes a
-    let xs ← serAttrs scopes as
+    let x ← serAttr scopes ver a
+    let xs ← serAttrs scopes ver as
     .ok (x :: xs)
 
 /-- `serialize_node_into` serde.py:2021-2055; `scopes` = current scope names :: outer -/
@@ -921,7 +922,7 @@ def serNode (scopes : Scopes) (ver : Option Int) : IRNode → Except Err NodeP
     let outs := trimTrailingEmpty (outputs.map fun
       | none => ""
       | some j => refName scopes ⟨0, j⟩)
-    let as ← serAttrs scopes attrs
+    let as ← serAttrs scopes ver attrs
     let dcs ← if devcfgs.isEmpty then .ok [] else serNodeDevCfgsGated scopes ver devcfgs
     .ok (.mk ins outs name opType domain overload doc as (sortEntries mprops) dcs)
 
@@ -1005,8 +1006,9 @@ def optNats : List (Option Nat) → List Nat
   | none :: xs => optNats xs
   | some i :: xs => i :: optNats xs
 
+/-- default attribute values of a function: serialized without `model_ir_version` (serde.py:2015) -/
 def serFunctionAttrs (as : List IRAttr) : Except Err (List AttrP) :=
-  serAttrs [] (as.filter IRAttr.hasValue)
+  serAttrs [] none (as.filter IRAttr.hasValue)
 
 /-- `serialize_function_into` serde.py:1923-1987 -/
 def serFunction (ver : Option Int) (createVI : Bool) (f : IRFunction) : Except Err FunctionP := do
@@ -1048,13 +1050,27 @@ def functionDict : List IRFunction → List IRFunction → List IRFunction
     functionDict (if acc.any (fun g => fnKey g = fnKey f) then acc.map (fun g => if fnKey g = fnKey f then f else g)
                   else acc ++ [f]) fs
 
-/-- `_parse_experimental_function_value_info_name` serde.py:582-608 -/
+/-- `str.partition(sep)` on character lists: split at the first occurrence of `sep` -/
+def partitionChars (sep : List Char) : List Char → Option (List Char × List Char)
+  | [] => if sep.isEmpty then some ([], []) else none
+  | c :: cs =>
+    if sep.isPrefixOf (c :: cs) then some ([], (c :: cs).drop sep.length)
+    else (partitionChars sep cs).map fun ab => (c :: ab.1, ab.2)
+
+def partitionStr (sep s : String) : Option (String × String) :=
+  (partitionChars sep.toList s.toList).map fun ab => (String.ofList ab.1, String.ofList ab.2)
+
+/-- `_parse_experimental_function_value_info_name` serde.py:582-609: split at the first "::",
+then at the first "/" -/
 def parseExperimentalName (name : String) : Option (String × String × String) :=
-  match name.splitOn "/" with
-  | [fn, vn] => match fn.splitOn "::" with
-    | [d, n] => some (d, n, vn)
-    | _ => none
-  | _ => none
+  match partitionStr "::" name with
+  | none => none
+  | some (d, rest) => match partitionStr "/" rest with
+    | none => none
+    | some (n, vn) => some (d, n, vn)
+
+/-- `format_name` serde.py:1765-1766 -/
+def experimentalName (d n vn : String) : String := d ++ "::" ++ n ++ "/" ++ vn
 
 /-- the entries of the main graph's value_info that address function `(d, n, "")`, by value name
 (later entries replace earlier ones) -/
@@ -1114,14 +1130,22 @@ def desModel (m : ModelP) : Except Err IRModel := do
         doc := m.doc, functions := fs, mprops := dictOfEntries m.metadata,
         configs := m.configuration.map desModelCfg }
 
-/-- `_serialize_experimental_value_info_for_function_ir9_into` serde.py:1722-1772 -/
+/-- what `_serialize_experimental_value_info_for_function_ir9_into` writes for one value of the
+function `d::n` (serde.py:1777-1808) -/
+def expEmit (d n : String) (v : IRValue) : List ValueInfoP :=
+  if v.name.isEmpty then [] else
+  if shouldCreateVI v then
+    -- `can_be_parsed_back` serde.py:1768-1775: unrepresentable names are skipped
+    if parseExperimentalName (experimentalName d n v.name) = some (d, n, v.name)
+    then [serValueAs (experimentalName d n v.name) v] else []
+  else []
+
+/-- `_serialize_experimental_value_info_for_function_ir9_into` serde.py:1737-1808 -/
 def serExperimental (f : IRFunction) : List ValueInfoP :=
   if !f.overload.isEmpty then [] else
   let tbl := f.graph.table
   let go := fun (is : List Nat) => is.flatMap fun i =>
-    let v := tbl.getD i (IRValue.blank "")
-    if v.name.isEmpty then [] else
-    if shouldCreateVI v then [serValueAs (f.domain ++ "::" ++ f.name ++ "/" ++ v.name) v] else []
+    expEmit f.domain f.name (tbl.getD i (IRValue.blank ""))
   go f.graph.inputs ++ go (optNats (f.graph.nodes.flatMap IRNode.outputs))
 
 def serFunctions (ver : Int) : List IRFunction → Except Err (List FunctionP)
@@ -1162,7 +1186,8 @@ def desNodeAlone (n : NodeP) : Except Err (IRNode × List IRValue) := do
 * quantization annotations are put in the order inputs, initializers, node outputs, graph outputs
   (an annotation list is a map keyed by tensor name; only its order changes);
 * below IR version 10 a function's value_info lives in the main graph under
-  `domain::name/value` names (the experimental encoding, serde.py:1722-1772).
+  `domain::name/value` names (the experimental encoding, serde.py:700-745, 1737-1808): those
+  entries are kept (after the graph's own, in the order functions / inputs / node outputs).
 Nothing else is touched. -/
 
 def viIsUnset : TypeP → Bool
@@ -1198,13 +1223,20 @@ def fillFromTensor (vi : ValueInfoP) (t : TensorP) : ValueInfoP :=
       | .unset _ => (defaultVI t).type
       | tp => fillLeafShape (t.dims.map fun d => ⟨.value d, ""⟩) tp }
 
-def normInitVIs (vis : List ValueInfoP) (inputNames : List String) : List TensorP → List ValueInfoP
+/-- canonical value-info of the initializers that are not graph inputs.  An initializer that is
+itself a graph output takes the info of the output entry (serde.py:857-873 overrides what the
+tensor says); an entry without information is not written. -/
+def normInitVIs (vis outputs : List ValueInfoP) (inputNames : List String) :
+    List TensorP → List ValueInfoP
   | [] => []
   | t :: ts =>
     (if inputNames.contains t.name then [] else
-      match findVI vis t.name with
-      | some vi => [normValueInfo (fillFromTensor vi t)]
-      | none => [defaultVI t]) ++ normInitVIs vis inputNames ts
+      match findVI outputs t.name with
+      | some vo => if viHasInfo vo then [normValueInfo vo] else []
+      | none =>
+        match findVI vis t.name with
+        | some vi => [normValueInfo (fillFromTensor vi t)]
+        | none => [defaultVI t]) ++ normInitVIs vis outputs inputNames ts
 
 def normNodeVIs (vis : List ValueInfoP) (outputNames : List String) : List String → List ValueInfoP
   | [] => []
@@ -1254,7 +1286,7 @@ def normGraph : GraphP → GraphP
     let outs := nodeOutNames nodes
     .mk name doc (normNodes nodes) (initializers.map normTensor)
       (inputs.map normValueInfo) (outputs.map normValueInfo)
-      (normInitVIs valueInfo inputNames initializers ++ normNodeVIs valueInfo outputNames outs)
+      (normInitVIs valueInfo outputs inputNames initializers ++ normNodeVIs valueInfo outputNames outs)
       (normQuantFor quant
         (inputNames.filter (fun n => !initNames.contains n) ++ initNames
           ++ outs.filter (fun n => !outputNames.contains n)
@@ -1277,17 +1309,26 @@ def normFunction (createVI : Bool) (f : FunctionP) : FunctionP :=
     valueInfo := if createVI then normFnVIs f.valueInfo (f.inputs ++ nodeOutNames f.nodes) else [],
     metadata := normEntries f.metadata }
 
-/-- the experimental entries `domain::name/value` a model below IR version 10 carries for `f` -/
-def experimentalVIs (f : FunctionP) : List ValueInfoP :=
+/-- the entry of the main graph's value_info that addresses value `vn` of function `f` in the
+experimental encoding (serde.py:700-745: the last one wins), normalised; none when it carries no
+information -/
+def expEntry (V : List ValueInfoP) (f : FunctionP) (vn : String) : Option ValueInfoP :=
+  match findLast? (fun e => parseExperimentalName e.name = some (f.domain, f.name, vn)) V with
+  | some e => if viHasInfo e then some (normValueInfo e) else none
+  | none => none
+
+/-- the experimental entries `domain::name/value` a model below IR version 10 carries for `f`, in
+the order the serializer writes them: inputs, then node outputs -/
+def experimentalVIs (V : List ValueInfoP) (f : FunctionP) : List ValueInfoP :=
   if !f.overload.isEmpty then [] else
-  (normFnVIs f.valueInfo (f.inputs ++ nodeOutNames f.nodes)).map fun vi =>
-    { vi with name := f.domain ++ "::" ++ f.name ++ "/" ++ vi.name }
+  (f.inputs ++ nodeOutNames f.nodes).filterMap (expEntry V f)
 
 def normModel (m : ModelP) : ModelP :=
   let g := normGraph m.graph
   { m with
     metadata := normEntries m.metadata,
-    graph := if m.irVersion ≥ 10 then g else GraphP.addValueInfo g (m.functions.flatMap experimentalVIs),
+    graph := if m.irVersion ≥ 10 then g
+             else GraphP.addValueInfo g (m.functions.flatMap (experimentalVIs m.graph.valueInfo)),
     functions := m.functions.map (normFunction (decide (m.irVersion ≥ 10))) }
 
 /-! ## `WFproto`: the explicit, decidable well-formedness C02 quantifies over -/
@@ -1390,7 +1431,7 @@ def wfNodes (scopes : Scopes) : List NodeP → Bool
 /-- graph: single assignment per scope (inputs, initializers, node outputs pairwise distinct and
 non-empty; an initializer may name an input), value_info only for non-input non-output names,
 graph outputs distinct; an output may be a graph input (pass-through) when its entry equals the
-input's entry, but not a (non-input) initializer; annotations for declared names only. -/
+input's entry, or an initializer (constant output); annotations for declared names only. -/
 def wfGraph (outer : Scopes) : GraphP → Bool
   | .mk _ _ nodes initializers inputs outputs valueInfo quant metadata =>
     let inputNames := inputs.map (·.name)
@@ -1403,8 +1444,7 @@ def wfGraph (outer : Scopes) : GraphP → Bool
       && nodupStr (valueInfo.map (·.name))
       && valueInfo.all (fun vi => !inputNames.contains vi.name && !outputNames.contains vi.name)
       && nodupStr outputNames
-      && outputs.all (fun vo => if inputNames.contains vo.name then inputs.contains vo
-                                 else !initNames.contains vo.name)
+      && outputs.all (fun vo => !inputNames.contains vo.name || inputs.contains vo)
       && initializers.all (fun t => wfTensor t && validDType t.dataType)
       && nodupStr (quant.map (·.tensorName))
       && quant.all (fun a => names.contains a.tensorName && !a.params.isEmpty && wfEntries a.params)
@@ -1453,9 +1493,9 @@ def graphHasDevCfg : GraphP → Bool
 end
 
 /-- model: well-formed graph and functions, distinct function identifiers / opset domains; the
-multi-device fields only from IR version 11 on; below IR version 10 no value_info name of the main
-graph uses the experimental `domain::name/value` form (that encoding is covered by the
-correspondence only). -/
+multi-device fields only from IR version 11 on; below IR version 10 functions carry no value_info
+of their own (it lives in the main graph in the experimental `domain::name/value` encoding) and no
+value of the main graph itself has a name of that form. -/
 def wfModel (m : ModelP) : Bool :=
   wfGraph [] m.graph && m.functions.all (wfFunction m.irVersion)
     && wfEntries m.metadata
@@ -1465,6 +1505,7 @@ def wfModel (m : ModelP) : Bool :=
         (m.configuration.isEmpty && !graphHasDevCfg m.graph
           && m.functions.all (fun f => !nodesHaveDevCfg f.nodes)))
     && (decide (m.irVersion ≥ 10) ||
-        m.graph.valueInfo.all (fun vi => (parseExperimentalName vi.name).isNone))
+        (scopeNames (m.graph.inputs.map (·.name)) (m.graph.initializers.map (·.name))
+            (nodeOutNames m.graph.nodes)).all (fun n => (parseExperimentalName n).isNone))
 
 end IrVerif.Serde
